@@ -219,7 +219,35 @@ pub fn execute(case: &Case, opts: ExecOpts, mut instr: Box<dyn Instrument>, fata
             Ok(Ok(mut app)) => {
                 instr.after_build(&mut app, false);
                 let pool = harness::make_pool(case.workers);
+                let two_callers = case.params.get("two_callers").and_then(|x| x.as_bool()).unwrap_or(false) && case.batches.len() == 2;
+                if two_callers {
+                    // two caller threads share the application (its services, caches, plugins): each hands one
+                    // batch to run() at the same time
+                    instr.before_run(0);
+                    let cfg0 = case.world.run_config(case.run_parallelism, 0);
+                    let cfg1 = case.world.run_config(case.run_parallelism, 1);
+                    let (b0, b1) = (case.batches[0].clone(), case.batches[1].clone());
+                    let app_ref = &app;
+                    let pool_ref = &pool;
+                    sim::set_quiet(false);
+                    let (r0, r1) = std::thread::scope(|sc| {
+                        let h0 = sc.spawn(move || catch_unwind(AssertUnwindSafe(|| pool_ref.install(|| app_ref.run(b0, cfg0.as_ref())))));
+                        let h1 = sc.spawn(move || catch_unwind(AssertUnwindSafe(|| pool_ref.install(|| app_ref.run(b1, cfg1.as_ref())))));
+                        (h0.join(), h1.join())
+                    });
+                    sim::set_quiet(true);
+                    for r in [r0, r1] {
+                        obs.runs.push(match r {
+                            Ok(Ok(Ok(v))) => Some(Ok(v)),
+                            Ok(Ok(Err(e))) => Some(Err(e.to_string())),
+                            _ => None,
+                        });
+                    }
+                }
                 for (bi, b) in case.batches.iter().enumerate() {
+                    if two_callers {
+                        break;
+                    }
                     let run_cfg = case.world.run_config(case.run_parallelism, bi);
                     instr.before_run(bi);
                     sim::set_quiet(false);
